@@ -34,7 +34,7 @@ var pub4 = []string{"8.8.8.8", "1.1.1.1", "93.184.216.34", "203.0.114.9", "192.0
 var priv4 = []string{"10.0.0.1", "10.255.255.254", "172.16.0.1", "172.31.255.1", "192.168.1.1", "127.0.0.1", "169.254.10.10", "100.64.0.1", "192.0.2.55", "198.18.0.1", "198.19.255.254"}
 var pub6 = []string{"2606:4700:4700::1111", "2a00:1450:4001:81b::200e", "2400:cb00::1"}
 var priv6 = []string{"::1", "fe80::1", "fc00::1", "fd12:3456::1", "2001:db8::7"}
-var junk = []string{"unknown", "_hidden", "", "junk", "1.2.3", "1.2.3.4.5", "gggg::1", "1.2.3.4:80:90", "0.0.0.0", "::", "-", "a.b.c.d", "300.1.1.1", "1.1.1.1 2.2.2.2"}
+var junk = []string{"\"", "unknown", "_hidden", "", "junk", "1.2.3", "1.2.3.4.5", "gggg::1", "1.2.3.4:80:90", "0.0.0.0", "::", "-", "a.b.c.d", "300.1.1.1", "1.1.1.1 2.2.2.2"}
 
 func genEntry(r *rand.Rand, forwarded bool) entry {
 	if r.IntN(5) == 0 {
@@ -100,13 +100,17 @@ func genEntry(r *rand.Rand, forwarded bool) entry {
 		} else {
 			text = key + "=" + text
 		}
-		switch r.IntN(4) {
+		switch r.IntN(6) {
 		case 0:
 			text += ";proto=https"
 		case 1:
 			text = "by=" + priv4[r.IntN(len(priv4))] + ";" + text
 		case 2:
 			text = "host=example.com; " + text + " ;proto=http"
+		case 3: // for= is the fourth parameter and an extension parameter follows
+			text = "by=" + priv4[r.IntN(len(priv4))] + ";host=example.com;proto=https;" + text + ";ext=1"
+		case 4: // for= is the fourth and last parameter
+			text = "proto=http;by=_gw;host=h;" + text
 		}
 	}
 	if r.IntN(4) == 0 {
